@@ -106,6 +106,30 @@ def _trivial_pair(c, name):
             and isinstance(a.value, ast.Name) and len(params) == 2 and a.value.id == params[1] and r.attr != name)
 
 
+def _hook_roots(c, hook, depth=0, seen=None):
+    """names of the non-private methods, defined anywhere in c's MRO, from which `self.<hook>(..)` is reached (through
+    private helpers)"""
+    seen = seen if seen is not None else set()
+    out = set()
+    if depth > 5 or hook in seen:
+        return out
+    seen.add(hook)
+    for b in c.mro():
+        for m, g in b.methods.items():
+            name = m.split('.')[0]
+            if name == hook:
+                continue
+            for n in ast.walk(g.node):
+                if isinstance(n, ast.Call) and isinstance(n.func, ast.Attribute) and n.func.attr == hook \
+                        and isinstance(n.func.value, ast.Name) and n.func.value.id == 'self':
+                    if name.startswith('_') and not name.startswith('__'):
+                        out |= _hook_roots(c, name, depth + 1, seen)
+                    else:
+                        out.add(m)
+                    break
+    return out
+
+
 def protocol(ctx, prop, extra_modules=()):
     """call last in a property's check: the scope is every class of every module the other rules consulted"""
     rule = prop + '.S.protocol'
@@ -117,15 +141,50 @@ def protocol(ctx, prop, extra_modules=()):
                 if b not in scope:
                     scope.append(b)
     n_classes = n_found = 0
+    from .. import vocab
+    try:
+        known = set(vocab.load()['classes'])
+    except (OSError, ValueError):
+        known = set(c.name for c in scope)
+    all_classes = ctx.repo.all_classes()
+
+    def has_table(cn, m):
+        from . import kernel, resources, netdev, sched, tcp
+        return any(any(k[0] == cn and k[1].split('@')[0] == m for k in S.SPECS) for S in (kernel, resources, netdev, sched, tcp))
+
     for c in scope:
         n_classes += 1
         construct = '%s::%s' % (c.module.relpath, c.name)
-        got = _special_names(c)
-        want = PROTOCOL.get(c.name, set())
-        n_found += len(set(got) & want)
-        extra = sorted(set(got) - want)
-        # a special method the class used to define and now inherits from a repository base is still the same protocol
-        missing = sorted(m for m in want - set(got) if c.lookup(m) is None and not any(m in _special_names(b) for b in c.mro()[1:]))
+        own = _special_names(c)
+        if c.name not in known and any(c in k.mro()[1:] for k in all_classes if k.name in known):
+            # a class the change introduced as a base of classes of the confirmed tree (extracted mixin / base): what it
+            # defines is judged where it takes effect, in the resolved protocol of each of those classes below
+            ctx.ob(rule, True)
+            extra, missing, got, want = [], [], own, set()
+        else:
+            # the protocol the class resolves to through its MRO, against what the confirmed classes of that MRO define
+            got, definer = {}, {}
+            for b in c.mro():
+                for m, ln in _special_names(b).items():
+                    if m not in got:
+                        got[m], definer[m] = ln, b
+            want = set()
+            for b in c.mro():
+                want |= PROTOCOL.get(b.name, set()) if (b.name in known or b is c) else set()
+            n_found += len(set(own) & PROTOCOL.get(c.name, set()))
+            extra = sorted(m for m in got if m not in want)
+            # a confirmed class (or this one) that defines a special method the table does not list for *it* shadows
+            # the definition the confirmed tree resolves to (Condition.__or__ over Event.__or__)
+            extra += sorted(m for m in got if m in want and (definer[m].name in known or definer[m] is c)
+                            and m not in PROTOCOL.get(definer[m].name, set()))
+            # defined by a class the confirmed tree does not have: accepted only where a reference table of this class
+            # compares the body that is found through the MRO
+            for m in sorted(set(got) & want):
+                d = definer[m]
+                if d.name not in known and not any(has_table(b.name, m) for b in c.mro() if b.name in known and m in PROTOCOL.get(b.name, set())):
+                    extra.append(m)
+            missing = sorted(m for m in want if m not in got)
+            got = {m: (ln if definer[m] is c else c.node.lineno) for m, ln in got.items()}
         ok = not extra and not missing
         ctx.ob(rule, ok)
         for m in extra:
@@ -186,6 +245,45 @@ def protocol(ctx, prop, extra_modules=()):
                 ctx.violation(rule, '%s::%s.%s' % (c.module.relpath, c.name, m), 'integer-only format %s' % what,
                               '%s.%s formats with %s, which raises for a non-integral value; printing the object is part of '
                               'the data path' % (c.name, m, what), where='%s:%d' % (c.module.relpath, ln))
+    # a private method the confirmed tree does not know, defined in a class of the repository so that it shadows a
+    # definition in one of its bases (a hook introduced in a base and overridden here): the tables dispatch it in the
+    # context they run in - so some table of *this* class must run the method that calls the hook.  An override nobody
+    # evaluates (`WFQ._service_time` silently replacing the hook `Scheduler.send_packet` uses) is reported.
+    known_names = ctx.repo.known_method_names()
+    if known_names is not None:
+        scope_set = set(scope)
+        ran = ctx.rule_ids()
+        for c in all_classes:
+            if not any(b in scope_set for b in c.mro()):
+                continue
+            for m, f in c.methods.items():
+                base = m.split('.')[0]
+                if not (base.startswith('_') and not base.startswith('__')) or base in known_names:
+                    continue
+                shadowed = next((b for b in c.mro()[1:] if base in b.methods), None)
+                if shadowed is None:
+                    continue
+                # public methods (of the classes c inherits from, or c itself) through which the hook is reached
+                roots = _hook_roots(c, base)
+                # only callers this property relies on: those it runs a table for on some class of c's MRO
+                mro_names = {b.name for b in c.mro()}
+                def _has(cn, r):
+                    return any('.T.' in rid and rid.split('.T.')[1].split('@')[0] == '%s.%s' % (cn, r) for rid in ran)
+                roots = {r for r in roots if any(_has(cn, r) for cn in mro_names)}
+                if not roots:
+                    continue
+                covered = [r for r in roots if any(rid.split('@')[0].endswith('.T.%s.%s' % (c.name, r)) or
+                                                    ('.T.' in rid and rid.split('.T.')[1].split('@')[0].split('.')[-1] == r and rid.endswith('@' + c.name))
+                                                    for rid in ran)]
+                ok = len(covered) == len(roots)
+                ctx.ob(rule, ok)
+                if not ok:
+                    missing_r = sorted(set(roots) - set(covered))
+                    ctx.violation(rule, '%s::%s.%s' % (c.module.relpath, c.name, m), 'hook override not evaluated',
+                                  '%s.%s overrides %s.%s, which %s call%s; no reference table of this property evaluates %s for %s, so what '
+                                  'instances of %s now do there is not covered' % (
+                                      c.name, base, shadowed.name, base, ', '.join(missing_r), 's' if len(missing_r) == 1 else '',
+                                      ', '.join(missing_r), c.name, c.name), where=f.where)
     # module-level functions of the consulted modules: same decorator rule
     for m in ctx.repo.modules.values():
         if m.relpath in mods:
